@@ -1,9 +1,10 @@
-From MV Require Import Lib.ExtractBase C09.Model.
+From MV Require Import Lib.ExtractBase C09.Model C09.ModelHeap.
 From Coq Require Import ExtrOcamlBasic.
 Extraction Language OCaml.
 Extraction "c09_model" force_types
   avl_find avl_insert avl_remove avl_okb height
-  ht_init ht_find ht_put ht_remove hash_id hash_zero hash_low hash_mul str_hash
+  ht_init ht_find ht_put ht_remove ht_idx hash_id hash_zero hash_low hash_mul str_hash
   trie_empty trie_lookup trie_find_node trie_insert trie_remove
   byte_index byte_index_unrepaired index_in_range
-  avl_step ht_step trie_step run.
+  avl_step ht_step trie_step run
+  havl_init havl_step habs hparents_ok hht_init hht_step hht_bucket.
